@@ -188,6 +188,25 @@ def run(ctx):
             klass, forged = 'consensus', B.decode(g['branch'], 'B') + b'\x00' + level.to_bytes(4, 'big')
         chain_raw = rng.choice([b'\x00' * 4, b'\xff' * 4, G.rbytes(rng, 4)])
         judge(ctx, rng, curve, gen_secret(rng, curve), g, klass, forged, chain_raw)
+        if curve == b'BL' or i % 5 == 0:
+            # the same bytes signed by a second account of the same kind, in the same process (co-signed / multisig use)
+            ctx.count('groups_signed_by_a_second_key')
+            judge(ctx, rng, curve, gen_secret(rng, curve), g, klass, forged, chain_raw)
+    # large groups: forged sizes on both sides of 2**13, 2**14, 2**15 bytes (one big parameter; a batch of hundreds of contents)
+    if ctx.mine(0):
+        for k, size in enumerate([4000, 8191, 8200, 16380, 16400, 20000, 30000]):
+            c = GO.content(rng, 'transaction')
+            c['parameters'] = {'entrypoint': 'default', 'value': {'bytes': G.rbytes(rng, size).hex()}}
+            g = {'branch': B.encode(G.rbytes(rng, 32), 'B'), 'contents': [c]}
+            curve = [b'ed', b'sp', b'p2', b'BL'][k % 4]
+            ctx.count('large_groups')
+            judge(ctx, rng, curve, gen_secret(rng, curve), g, 'manager', OB.encode_group(g), G.rbytes(rng, 4))
+        for k, n_ in enumerate([100, 250, 300]):
+            src = GO.pkh(rng)
+            g = {'branch': B.encode(G.rbytes(rng, 32), 'B'), 'contents': [dict(GO.content(rng, 'transaction', source=src), counter=str(1000 + j)) for j in range(n_)]}
+            curve = [b'p2', b'ed', b'sp'][k % 3]
+            ctx.count('large_groups')
+            judge(ctx, rng, curve, gen_secret(rng, curve), g, 'manager', OB.encode_group(g), G.rbytes(rng, 4))
     for curve in (b'p2', b'sp'):
         bulk(ctx, rng, curve, ctx.pick(2400, 40000) // ctx.nshards)
     ctx.require('bulk_sign_calls', 100)
